@@ -101,7 +101,7 @@ int vnacal_new_set_m_error(vnacal_new_t *vnp,
 		"vnacal_new_set_frequency_vector must be called first");
 	return -1;
     }
-    if (frequency_vector != NULL) {
+    if (frequency_vector != NULL && frequencies > 1) {
 	double fmin, fmax;
 	double lower, upper;
 
